@@ -80,6 +80,7 @@ type Obs struct {
 	ReuseRuns int      `json:"reuse_runs"`
 	Panic     bool     `json:"panic"`
 	Hung      bool     `json:"hung"`
+	Running   int      `json:"running"` // executions of jobFunc in progress when the script ended
 	Count     int      `json:"count"`
 }
 
@@ -111,6 +112,7 @@ type shared struct {
 	listed    bool
 	reuse     string
 	reuseRuns int
+	running   int
 	panicked  bool
 	finished  bool
 	svc       *advanced.Service
@@ -229,7 +231,7 @@ func body(sc Script, st *shared) {
 	exists := svc.JobExists(rootCtx, jobName)
 	isListed := listed(svc, jobName)
 	st.mu.Lock()
-	nstarts := len(st.starts)
+	nstarts, running := len(st.starts), st.inflight
 	st.mu.Unlock()
 	var reuseRuns atomic.Int64
 	reuseCtx, reuseCancel := context.WithCancel(rootCtx)
@@ -241,6 +243,7 @@ func body(sc Script, st *shared) {
 	st.mu.Lock()
 	st.starts = st.starts[:nstarts] // what the original job did after the observation instant is not part of it
 	st.exists, st.listed, st.reuse, st.reuseRuns = exists, isListed, codeOf(rerr), int(reuseRuns.Load())
+	st.running = running
 	st.finished = true
 	st.mu.Unlock()
 	st.tick()
@@ -341,9 +344,10 @@ wait:
 	st.mu.Lock()
 	defer st.mu.Unlock()
 	o := Obs{Calls: append([]string(nil), st.calls...), Starts: append([]int{}, st.starts...), Overlap: st.overlap,
-		Exists: st.exists, Listed: st.listed, Reuse: st.reuse, ReuseRuns: st.reuseRuns, Panic: st.panicked}
+		Exists: st.exists, Listed: st.listed, Reuse: st.reuse, ReuseRuns: st.reuseRuns, Panic: st.panicked, Running: st.running}
 	if hung || !st.finished {
 		o.Hung = true
+		o.Running = st.inflight
 		o.Reuse, o.ReuseRuns = "Ret Nil", 0
 		if st.svc != nil {
 			// the table can still be read from outside the bubble (jobsMutex only)
@@ -407,7 +411,7 @@ func obsKey(o Obs) string {
 	}
 	out := Record("o_calls", List(calls), "o_starts", List(starts), "o_overlap", N(uint64(o.Overlap)),
 		"o_exists", Bool(o.Exists), "o_reuse", reuse, "o_reuse_runs", N(uint64(o.ReuseRuns)), "o_panic", Bool(o.Panic))
-	return "ob_out := " + out + "; ob_listed := " + Bool(o.Listed) + "; ob_hung := " + Bool(o.Hung)
+	return "ob_out := " + out + "; ob_listed := " + Bool(o.Listed) + "; ob_hung := " + Bool(o.Hung) + "; ob_running := " + N(uint64(o.Running))
 }
 
 func obsTerm(o Obs) string {
@@ -880,7 +884,7 @@ func TestC02(t *testing.T) {
 	tier := os.Getenv("VERIF_TIER")
 	tieReps, freeReps := 50, 2
 	if tier == "thorough" {
-		tieReps = 500
+		tieReps = 200
 	}
 	if os.Getenv("VERIF_SEARCH") != "" {
 		tieReps *= 4
